@@ -14,6 +14,7 @@ interpreter and the REAL generated class.  Oracle per failing path:
   5. continuing for m steps yields the same events as a fresh stepper put in
      that state and phase (z3 validity per field)."""
 import copy
+import json
 import random
 
 import z3
@@ -212,6 +213,10 @@ def run_backend(ex, kind, prog, dag, cls, builders, sites, K, m_after, k, concre
         # a program-level error (raise_) or another failure before the fault: not this property's subject
         return None
     if caught is None:
+        if failed:
+            # the fault WAS injected and run() went on as if nothing had happened
+            return "%s: the user function %s raised %s, but no exception reached the caller of the stepper" % (
+                kind, failed[0], type(boom).__name__)
         return None
     if caught is not boom:
         return "%s: a different exception object escaped run()" % kind
@@ -249,7 +254,9 @@ def run_backend(ex, kind, prog, dag, cls, builders, sites, K, m_after, k, concre
         if prove(cond) == "refuted":
             return ("%s: after the failure of %s persistent %s = %r is neither its pre-step value %r nor one of the %d values the "
                     "program assigns to it in that step" % (kind, site, v, post[v], pre.get(v), len(allowed) - 1))
-        if fstmt is not None and pname == pre_phase and v in pre and writers_all_depend_on(builders, pname, fstmt, v):
+        # (inlined-guard variants evaluate the call once per guarded statement: a write guarded by an EARLIER evaluation does
+        #  not depend on the failing one, and the builder's statements no longer describe the dependencies -- clause 4 skipped)
+        if fstmt is not None and not prog.get("inline_cond") and pname == pre_phase and v in pre and writers_all_depend_on(builders, pname, fstmt, v):
             if prove(symx.sym_eq(post[v], pre[v])) == "refuted":
                 return "%s: %s changed although every write of it depends on the failed call %s" % (kind, v, site)
     # --- clause 5: resumability
@@ -337,6 +344,61 @@ def harness(prog, dag, cls, builders, sites, K, m_after):
     return h
 
 
+def inline_conditions(dag):
+    """The written program with every `<cond>` flag that is computed by a user-function call and used only as a (negated)
+    statement guard replaced by its defining expression: the call then sits IN the guards (hand-built statements may do
+    that; the builder never does).  Only where this keeps the meaning: no statement other than its own dependencies writes what
+    the expression reads.  Returns (dag', number of flags inlined)."""
+    import dagrt.language as L
+    from pymbolic.primitives import Variable, LogicalNot
+    nin = 0
+    phases = {}
+    for pname, ph in dag.phases.items():
+        stmts = list(ph.statements)
+        for A in list(stmts):
+            if not (isinstance(A, L.Assign) and isinstance(A.assignee, str) and A.assignee.startswith("<cond>")
+                    and A.condition is True and not A.loops and "<func>" in str(A.rhs)):
+                continue
+            reads = frozenset(A.get_read_variables())
+            from vf.checks.c02 import closure
+            before = closure(stmts)[A.id]   # writers the flag's statement depends on ran before it: harmless
+            if any(S is not A and S.id not in before and (reads & frozenset(S.get_written_variables())) for S in stmts):
+                continue
+            cv = Variable(A.assignee)
+            users = [S for S in stmts if S is not A and A.assignee in S.get_read_variables()]
+            if not users or any(not (S.condition == cv or S.condition == LogicalNot(cv)) for S in users):
+                continue
+            if any(A.assignee in (frozenset(S.copy(condition=True).get_read_variables())) for S in users):
+                continue
+            out = []
+            for S in stmts:
+                if S is A:
+                    continue
+                deps = set(S.depends_on)
+                if A.id in deps:
+                    deps = (deps - {A.id}) | set(A.depends_on)
+                cond = S.condition
+                if any(S is U for U in users):
+                    cond = A.rhs if S.condition == cv else LogicalNot(A.rhs)
+                out.append(S.copy(condition=cond, depends_on=frozenset(deps)))
+            stmts = out
+            nin += 1
+        phases[pname] = L.ExecutionPhase(name=ph.name, next_phase=ph.next_phase, statements=stmts)
+    if not nin:
+        return dag, 0
+    return L.DAGCode(phases, dag.initial_phase), nin
+
+
+def build(prog):
+    from vf.checks.c02 import build_instrumented
+    dag, builders, x = build_instrumented(prog)
+    if prog.get("inline_cond"):
+        dag, n = inline_conditions(dag)
+        if not n:
+            raise ValueError("nothing to inline")
+    return dag, builders, x
+
+
 def check_program(prog0, K, m_after, max_paths):
     from vf.symx import Stats
     st = Stats()
@@ -344,8 +406,7 @@ def check_program(prog0, K, m_after, max_paths):
     if not sites:
         return st, None, {"paths": 0, "sites": 0}
     try:
-        from vf.checks.c02 import build_instrumented
-        dag, builders, _ = build_instrumented(prog)
+        dag, builders, _ = build(prog)
         cls = backends.generate_class(dag)
     except Exception:  # noqa
         return st, None, {"paths": 0, "sites": 0}
@@ -395,8 +456,7 @@ def replay(d):
                 for _, s in exprdsl.subterms(e):
                     if s[0] == "call" and not s[1].startswith("<builtin>"):
                         sites.setdefault(s[1], 1)
-    from vf.checks.c02 import build_instrumented
-    dag, builders, _ = build_instrumented(prog)
+    dag, builders, _ = build(prog)
     cls = backends.generate_class(dag)
     ks = [d["k"]] if d.get("k") is not None else []
     ks += [k for k in range(MAXK + 1) if k not in ks]
@@ -456,6 +516,15 @@ C11_CORPUS = [
     pg.P1([["assign", "<state>y", pg.ADD(pg.Y, pg.C(1)), []],
            ["if", ["expr", pg.GT(pg.Y, pg.C(2))], [["assign", "<dt>", ["call", "<func>f", [pg.DT], {}], []], ["fail"]], None],
            ["assign", "<state>z", ["call", "<func>g", [pg.Y], {}], []], pg.yld(pg.Z), pg.STEP]),
+    # guards computed by a call on a variable nothing overwrites afterwards (inlinable, see inline_conditions)
+    pg.P1([["assign", "<state>z", pg.ADD(pg.Z, pg.C(1)), []],
+           ["if", ["expr", pg.GT(["call", "<func>f", [pg.Z], {}], pg.C(0))], [["assign", "<state>y", pg.ADD(pg.Y, pg.Y), []]], None],
+           pg.yld(pg.Y), pg.STEP]),
+    pg.P1([["assign", "a", pg.ADD(pg.Z, pg.C(1)), []],
+           ["if", ["expr", pg.GT(["call", "<func>f", [pg.V("a")], {}], pg.C(1))],
+            [["assign", "<state>y", pg.ADD(pg.Y, pg.C(3)), []], pg.yld(pg.Y)],
+            [["assign", "<state>y", ["call", "<func>g", [pg.Y], {}], []]]],
+           pg.STEP]),
 ]
 
 
@@ -506,17 +575,32 @@ def main(tier, seed):
         p = g.program(tries)
         if pg.functions_used(p):
             progs.append(p)
+    # after seeded change C11_r7: the same programs with the call-computed `<cond>` flags inlined into the guards
+    # (kept only where inline_conditions finds something it may inline)
+    ninl = 0
+    for p in list(progs):
+        if any(op[0] == "if" and "<func>" in json.dumps(op[1]) for ph in p["phases"] for op in pg.walk_ops(ph["ops"])):
+            q = copy.deepcopy(p)
+            q["inline_cond"] = True
+            q["name"] = (p.get("name") or "prog") + "_inl"
+            try:
+                build(uniquify_calls(q)[0])
+            except Exception:  # noqa
+                continue
+            progs.append(q)
+            ninl += 1
     K, m_after, max_paths = (2, 1, 150) if tier == "quick" else (3, 2, 500)
     items = [{"progs": p, "K": K, "m_after": m_after, "max_paths": max_paths} for p in chunks(progs, common.NPROC * 4)]
     for part in pmap("vf.checks.c11", "work", items):
         run.absorb(part)
     run.bounds = {"steps_before_and_including_failure": K, "steps_after": m_after, "fault_call_index_k": "0..%d (symbolic)" % MAXK,
-                  "curated_programs": ncur, "random_programs": len(progs) - ncur, "max_paths_per_program": max_paths}
+                  "curated_programs": ncur, "random_programs": len(progs) - ncur - ninl, "inlined_guard_variants": ninl, "max_paths_per_program": max_paths}
     run.selftests = selftests()
     if not all(run.selftests.values()):
         run.harness_errors.append("self-test failed: %r" % run.selftests)
     run.assumptions = [
         "every call site gets its own function name (so the failed call identifies its statement); user functions are otherwise pure uninterpreted functions",
+        "inlined-guard variants: a call-computed flag is replaced by its defining expression in the guards only if no statement other than the flag's own dependencies writes what the expression reads",
         "programs without arrays (element-wise 'old value or assigned value' is not modelled); scalar loops with calls are included",
         "'that phase' for resumption is the stepper's next_phase attribute after the exception (the default successor of the failed phase)",
         "clause 3 uses the values RefProgram assigns in a non-failing run of the step from the pre-step state (a superset of what a failing run can assign)",
